@@ -5,7 +5,7 @@ from .common import *   # noqa: F401,F403
 from . import linegen as lg
 from . import instr_gen as ig
 
-LEAF = ['Leaf_dispatch', 'Leaf_tracks', 'Leaf_chart', 'Leaf_fromfile']      # translated functions this property's model relies on (Tie/<name>.v)
+LEAF = ['Leaf_dispatch', 'Leaf_tracks', 'Leaf_chart', 'Leaf_fromfile', 'Leaf_meta']      # translated functions this property's model relies on (Tie/<name>.v)
 RULE = ("(a) a clean chart (every body line parsable) and the same chart with 1-6 unparsable lines (garbage, lines of foreign sections, unsupported indices S 0/1/64, N 8, blank lines, "
         "non-ASCII; repeated texts included) inserted at random positions of [SyncTrack], [Events] and up to two instrument sections: the parse must equal the clean parse and the "
         "chartparse.track log must report exactly the inserted lines, once each, in routing order (equal-tick neighbours of one kind in every section; the clean chart itself must yield one event per body line, one note event per tick); in a third of these charts a quarter of the line ends are other str.splitlines() boundaries (VT, FF, FS, GS, RS, NEL, LS, PS, lone CR, CRLF); (b) parse_data_from_chart_lines called directly with every permutation of the three kinds "
